@@ -57,8 +57,8 @@ FILEMAP = [
     ("state/simulation_state/update/update_requests_from_file.py", "C11 C03 C19"),
     ("state/simulation_state/update/charging_price_update.py", "C11 C05 C19"),
     ("state/simulation_state/update/update.py", "C11 C15 C03"),
-    ("state/simulation_state/update/step_simulation.py", "C09 C18 C15 C16 C02"),
-    ("state/simulation_state/update/step_simulation_ops.py", "C09 C18 C02 C16 C15"),
+    ("state/simulation_state/update/step_simulation.py", "C09 C18 C20 C15 C16 C02"),
+    ("state/simulation_state/update/step_simulation_ops.py", "C09 C18 C20 C02 C16 C15"),
     ("state/driver_state/**/*.py", "C20 C09 C12 C10 C02 C04"),
     ("dispatcher/instruction_generator/dispatcher.py", "C12 C10 C17 C20"),
     ("dispatcher/instruction_generator/assignment_ops.py", "C12 C10 C18 C16"),
@@ -69,7 +69,7 @@ FILEMAP = [
     ("model/station/*.py", "C02 C05 C11 C18 C10 C19"),
     ("model/base.py", "C02 C10 C07"),
     ("model/membership.py", "C10 C12 C18"),
-    ("model/vehicle/mechatronics/*.py", "C04 C05 C12 C19"),
+    ("model/vehicle/mechatronics/*.py", "C04 C05 C06 C03 C12 C19"),
     ("model/vehicle/mechatronics/powertrain/*.py", "C04 C05"),
     ("model/vehicle/mechatronics/powercurve/*.py", "C04 C05 C16"),
     ("model/vehicle/vehicle.py", "C04 C05 C06 C03 C19"),
